@@ -224,20 +224,16 @@ def afterLoop (now : Int) (spec document nowV : Val) (ss dfs : Fields) (upsert :
       (c3, .ok ⟨matched, if matched > 0 then updated else 0, none, matched > 0⟩)
     else
       let ic := upsertIdv ss dfs c3
-      match (do
-          let expanded ← expandDots (dset "_id" ic.1 ss)
-          let seed := (discardOps (.doc expanded)).1
-          let spec' := match dget "_id" ss, dget "_id" expanded with
-            | some (.doc _), some (.doc e) => Val.doc (dset "_id" (.doc e) ss)
-            | _, _ => spec
-          let built ← applyUpdate spec' document nowV true seed
-          insertDoc now ic.2 built) with
+      match upsertDoc spec document nowV ss ic.1 with
       | .error e => (ic.2, .error e)
-      | .ok (c5, newId) =>
-        let c6 := match storeKey newId with
-          | .ok k => { c5 with od := c5.od ++ [k] }
-          | .error _ => c5
-        (c6, .ok ⟨1, 0, some newId, false⟩)
+      | .ok built =>
+        match insertDoc now ic.2 built with
+        | .error e => (ic.2.markStored (insertStored now ic.2 built), .error e)
+        | .ok (c5, newId) =>
+          let c6 := match storeKey newId with
+            | .ok k => { c5 with od := c5.od ++ [k] }
+            | .error _ => c5
+          (c6, .ok ⟨1, 0, some newId, false⟩)
 
 theorem applyUpdateColl_eq (cfg : Cfg) (now : Int) (c : Coll) (spec0 document0 : Val)
     (upsert multi : Bool) :
@@ -303,26 +299,20 @@ theorem afterLoop_spec (now : Int) (spec document nowV : Val) (ss dfs : Fields) 
     · cases h; exact Or.inl rfl
     · have hd := upsertIdv_docs ss dfs c3
       generalize upsertIdv ss dfs c3 = ic at h hd
-      simp only [bind, Except.bind] at h
-      cases he : expandDots (dset "_id" ic.1 ss) with
-      | error e => simp only [he] at h; cases h; exact Or.inl hd
-      | ok expanded =>
-        simp only [he] at h
-        generalize (match dget "_id" ss, dget "_id" expanded with
-            | some (Val.doc _), some (Val.doc e) => Val.doc (dset "_id" (Val.doc e) ss)
-            | _, _ => spec) = spec' at h
-        cases hb : applyUpdate spec' document nowV true (discardOps (Val.doc expanded)).1 with
-        | error e => simp only [hb] at h; cases h; exact Or.inl hd
-        | ok built =>
-          simp only [hb] at h
-          cases hi : insertDoc now ic.2 built with
-          | error e => simp only [hi] at h; cases h; exact Or.inl hd
-          | ok p =>
-            obtain ⟨c5, newId⟩ := p
-            simp only [hi] at h
-            cases h
-            refine Or.inr ⟨ic.2, built, c5, newId, hd, hi, ?_, _, rfl, rfl⟩
-            split <;> rfl
+      cases hb : upsertDoc spec document nowV ss ic.1 with
+      | error e => simp only [hb] at h; cases h; exact Or.inl hd
+      | ok built =>
+        simp only [hb] at h
+        cases hi : insertDoc now ic.2 built with
+        | error e =>
+          simp only [hi] at h; cases h
+          exact Or.inl (by rw [markStored_docs]; exact hd)
+        | ok p =>
+          obtain ⟨c5, newId⟩ := p
+          simp only [hi] at h
+          cases h
+          refine Or.inr ⟨ic.2, built, c5, newId, hd, hi, ?_, _, rfl, rfl⟩
+          split <;> rfl
 
 theorem applyUpdateColl_spec (cfg : Cfg) (now : Int) (c : Coll) (f u : Val) (upsert multi : Bool)
     (c' : Coll) (r : R UpdateResult)
